@@ -13,6 +13,10 @@ host is a loopback address, an opaque host name, an opaque path segment, the num
 slashes and the string operations (`Wk`) applied to it by the code.  Equality of URL values is
 equality of the strings they stand for (the harness renders them injectively).
 
+`Handler.run` (end of the file) is the handler across MANY `Authorize` calls: a list of rounds, each
+with its own request URL, 401/403 response and world; the handler carries only its fixed
+configuration and the token source installed last.
+
 The predicates the code decides with (`scriptSchemes`, `holReject`, `validateIssuerResponse`) are
 REGENERATED from /repo (Generated/OAuthGen.lean); the specification predicates
 (`Url.httpsOrLoopback`, `Url.isScript`, `issCheck`) are written by hand here. Props.lean proves the
@@ -435,5 +439,52 @@ def authorize (cfg : Config) (inp : Input) (w : World) : Result :=
         | .err o => { log := p.2 ++ q.2 ++ r.2, outcome := o, issuer := some issuer, resource := resource, asm := some a }
         | .ok cred probe =>
           finish w a issuer resource cred probe (p.2 ++ q.2 ++ r.2 ++ [.fetch a.authorizationEndpoint cred resource])
+
+/-! ### The handler across authorization rounds
+
+One `AuthorizationCodeHandler` serves many `Authorize` calls (a 401, later 403 step-ups, a token that
+stopped working…), each against whatever the network answers AT THAT TIME: the protected-resource
+metadata may name another authorization server, metadata documents may change, the fetcher may be
+answered by somebody else.  The only thing the handler carries from one round to the next is the
+token source installed by the last successful exchange (and the granted scopes, which are not
+modelled): in particular the client registration is resolved afresh — and the pre-registered issuer
+binding re-checked — in EVERY round against the metadata in use in THAT round. -/
+
+/-- The part of the configuration that is fixed when the handler is created. -/
+structure HConfig where
+  cimd : Bool
+  pre : Option Url
+  dcr : Bool
+deriving Repr
+
+def HConfig.at (c : HConfig) (u : Url) : Config := { cimd := c.cimd, pre := c.pre, dcr := c.dcr, serverUrl := u }
+
+/-- One call of `Authorize`: the request URL, the 401/403 response, and the network of that moment. -/
+structure Round where
+  serverUrl : Url
+  inp : Input
+  world : World
+
+/-- What `TokenSource()` returns: the configured initial source (possibly nil), or the one installed by round `n`. -/
+inductive Served
+  | initial
+  | round (n : Nat)
+deriving DecidableEq, Repr
+
+structure Handler where
+  cfg : HConfig
+  rounds : Nat := 0
+  served : Served := .initial
+deriving Repr
+
+/-- One `Authorize` call on a handler. -/
+def Handler.authorize (h : Handler) (r : Round) : Handler × Result :=
+  let res := OAuth.authorize (h.cfg.at r.serverUrl) r.inp r.world
+  ({ h with rounds := h.rounds + 1, served := if res.installed then .round h.rounds else h.served }, res)
+
+/-- A history of `Authorize` calls on one handler: the final handler and the result of every round. -/
+def Handler.run (h : Handler) : List Round → Handler × List Result
+  | [] => (h, [])
+  | r :: rs => ((Handler.run (h.authorize r).1 rs).1, (h.authorize r).2 :: (Handler.run (h.authorize r).1 rs).2)
 
 end OAuth
